@@ -8,7 +8,7 @@ import threading
 
 from . import trace
 
-YIELD_KINDS = {"mkdirs", "mkTmp", "openWrite", "rename", "remove", "truncate"}
+YIELD_KINDS = {"mkdirs", "mkTmp", "openWrite", "rename", "remove", "truncate", "truncated"}
 
 
 class Deadlock(Exception):
